@@ -473,6 +473,8 @@ type LoopContract struct {
 
 // GhostStmt: ghost assignment anchored at entry/exit or before/after the k-th call of a callee.
 type GhostStmt struct {
+	Check  Expr     // anchored assertion instead of an assignment
+	Tags   []string
 	Where  string // entry | exit | before | after
 	Callee string // for before/after: callee key, e.g. (*MemTablePool).Put
 	Ord    int
@@ -530,7 +532,7 @@ type SpecFile struct {
 var clauseKinds = map[string]bool{
 	"requires": true, "ensures": true, "modifies": true, "invariant": true, "decreases": true,
 	"inline": true, "trusted": true, "nonblocking": true, "acquires": true, "releases": true,
-	"ghost": true, "assert": true, "assume": true, "params": true, "havocs": true, "reads": true,
+	"ghost": true, "assert": true, "assume": true, "params": true, "havocs": true, "reads": true, "check": true,
 }
 
 var topKinds = map[string]bool{"func": true, "loop": true, "pure": true, "predicate": true, "lemma": true,
@@ -826,6 +828,32 @@ func ParseSpecFile(path, pkg string) (*SpecFile, error) {
 			}
 			c := &Clause{Kind: kind, Tags: tags, Label: label, Text: it.rest, Line: it.line, File: path}
 			switch kind {
+			case "check":
+				// check[Cxx] before call X#k: formula   (anchored assertion)
+				i := strings.Index(it.rest, ":")
+				if i < 0 {
+					return nil, errf(it.line, "check needs anchor:")
+				}
+				anchor := strings.Fields(it.rest[:i])
+				gs := &GhostStmt{Line: it.line, Text: it.rest, Tags: tags}
+				if len(anchor) == 3 && (anchor[0] == "before" || anchor[0] == "after") && anchor[1] == "call" {
+					gs.Where = anchor[0]
+					j := strings.LastIndex(anchor[2], "#")
+					if j < 0 {
+						return nil, errf(it.line, "call anchor needs #k")
+					}
+					gs.Callee = anchor[2][:j]
+					gs.Ord, _ = strconv.Atoi(anchor[2][j+1:])
+				} else {
+					return nil, errf(it.line, "bad check anchor %q", it.rest[:i])
+				}
+				e, err := ParseExpr(it.rest[i+1:])
+				if err != nil {
+					return nil, errf(it.line, "%v", err)
+				}
+				gs.Check = e
+				curF.Ghosts = append(curF.Ghosts, gs)
+				continue
 			case "inline":
 				curF.Inline = true
 				continue
